@@ -43,11 +43,11 @@ Proof. vm_compute. reflexivity. Qed.
 From ToughV Require Export Model.TName Model.Url.
 From ToughV Require Import Proofs.UrlP.
 Theorem C16_file_url_opens_entry : forall base cs v name,
-  forallb (fun c => negb (is_empty c)) base = true -> is_bytes name ->
+  base <> [] -> forallb (fun c => negb (is_empty c)) base = true -> is_bytes name ->
   url_plain (role_filename cs v name) = true
   /\ url_join base (role_filename cs v name) = UPath (base ++ [role_filename cs v name]) false.
 Proof.
-  intros base cs v name Hb Hn. split;
-    [exact (role_filename_url_plain cs v name Hn) | exact (role_file_opened base cs v name Hb Hn)].
+  intros base cs v name Hne Hb Hn. split;
+    [exact (role_filename_url_plain cs v name Hn) | exact (role_file_opened base cs v name Hne Hb Hn)].
 Qed.
 Print Assumptions C16_file_url_opens_entry.
